@@ -6,7 +6,7 @@ MODEL_FILES = [
     "Params.v", "Base/Res.v", "Base/ListX.v", "Spec.v",
     "Base/Bits.v", "Base/Word.v", "Vec/MaskRep.v", "Mem/Bytewise.v", "Mem/Generic.v", "Mem/Swar.v", "Mem/Wrappers.v", "Mem/Iter.v",
     "Sub/IsEqual.v", "Sub/Pair.v", "Sub/RabinKarp.v", "Sub/ShiftOr.v", "Sub/PackedPair.v", "Sub/Prefilter.v",
-    "Sub/TwoWay.v", "Sub/TwoWayCert.v", "Sub/Searcher.v", "Sub/FindIter.v",
+    "Sub/TwoWay.v", "Sub/TwoWayCert.v", "Sub/Words.v", "Sub/Searcher.v", "Sub/FindIter.v",
 ]
 
 TRUSTED_BASE = [
@@ -92,8 +92,10 @@ SUB_TRUSTED = MEM_TRUSTED + ["u32/u16 wrap-around of the Rabin-Karp hash and Shi
 SUB_ASSUME = ["needle and haystack bytes are < 256", "the hooks report every raw load and loop step of the substring building blocks"]
 
 PROPS["C12"] = dict(
-    id="C12", coq_files=["SpecProofs.v", "Sub/IsEqualProofs.v", "Sub/RabinKarpProofs.v", "Sub/ShiftOrProofs.v", "Sub/PackedPairProofs.v", "Props/C12.v"],
-    gen=gens.gen_c12, oracle=gens.oracle_blocks, nontrivial=gens.nontrivial_blocks,
+    id="C12", coq_files=["SpecProofs.v", "Sub/IsEqualProofs.v", "Sub/RabinKarpProofs.v", "Sub/ShiftOrProofs.v", "Sub/PackedPairProofs.v",
+                         "Sub/TwoWayPreProofs.v", "Sub/TwoWayFwdProofs.v", "Sub/TwoWayRevProofs.v", "Sub/CritFact.v", "Sub/MaxSuffixProofs.v",
+                         "Sub/TwoWayTier2.v", "Sub/TwoWayTier2Rev.v", "Props/C12.v"],
+    gen=gens.gen_c12_all, cert="both", oracle=gens.oracle_blocks, nontrivial=gens.nontrivial_blocks,
     shrink_fields=["h"], builds=["debug", "release"],
     rule="Rabin-Karp fwd/rev and Shift-Or on all needles <= 4 (6 thorough) x haystacks <= 8 (11) over {a,b} (and {a,b,c} thorough), structured needles "
          "(u^k, u^k v, Fibonacci, Thue-Morse, single letters, bytes equal mod 64) against haystacks built from their own factors, constructed "
@@ -130,10 +132,11 @@ PROPS["C05"] = dict(
 
 ALL_SUB_PROOFS = ["SpecProofs.v", "Sub/IsEqualProofs.v", "Sub/PairProofs.v", "Sub/RabinKarpProofs.v", "Sub/ShiftOrProofs.v",
                   "Sub/PackedPairProofs.v", "Sub/PortablePrefilterProofs.v", "Sub/TwoWayPreProofs.v", "Sub/TwoWayFwdProofs.v",
-                  "Sub/TwoWayRevProofs.v", "Sub/SearcherProofs.v"]
-TIER1 = ["Two-Way searches are proved under the decidable needle certificate tw_cert_fwd/tw_cert_rev (Tier 1); the certificate is "
-         "evaluated by the extracted model for every needle the run uses (it held for all of them) and was swept over all binary needles "
-         "up to 13 bytes, ternary up to 8 bytes and 3000 random needles; 'for every needle' in full is Tier 2 (DESIGN.md 6/C03)"]
+                  "Sub/TwoWayRevProofs.v", "Sub/CritFact.v", "Sub/MaxSuffixProofs.v", "Sub/TwoWayTier2.v", "Sub/TwoWayTier2Rev.v",
+                  "Sub/SearcherProofs.v"]
+TIER1 = ["Two-Way: the search loops are proved under a decidable needle certificate (Tier 1) and the certificate is proved for EVERY non-empty "
+         "needle (Tier 2: Sub/MaxSuffixProofs.v, Sub/CritFact.v, Sub/TwoWayTier2.v, Sub/TwoWayTier2Rev.v), so the property theorems carry no "
+         "certificate hypothesis; the run still evaluates the certificate in the extracted model for every needle it uses, as a cross-check"]
 
 PROPS["C14"] = dict(
     id="C14", coq_files=MEM_PROOF_FILES + ["Mem/IterProofs.v"] + ALL_SUB_PROOFS + ["Props/C14.v"],
@@ -191,7 +194,7 @@ PROPS["C16"] = dict(
 )
 
 PROPS["C17"] = dict(
-    id="C17", coq_files=MEM_PROOF_FILES + ["Mem/IterProofs.v"] + ALL_SUB_PROOFS + ["Sub/FindIterProofs.v", "Sub/CritFact.v", "Sub/MaxSuffixProofs.v", "Sub/TwoWayTier2.v", "Props/C17.v"],
+    id="C17", coq_files=MEM_PROOF_FILES + ["Mem/IterProofs.v"] + ALL_SUB_PROOFS + ["Sub/FindIterProofs.v", "Props/C17.v"],
     gen=gens.gen_c17, oracle=gens.oracle_c17, nontrivial=gens.nontrivial_c17, shrink_fields=["h"],
     builds=["debug", "release", "plain-release+alloconly", "plain-release+nofeatures"], compare_trace=False, canon=gens.canon_c17,
     rule="allocation probe (counting #[global_allocator], armed on the calling thread around exactly one API call with pre-built inputs): "
@@ -205,7 +208,7 @@ PROPS["C17"] = dict(
 )
 
 PROPS["C09"] = dict(
-    id="C09", coq_files=MEM_PROOF_FILES + ["Mem/IterProofs.v"] + ALL_SUB_PROOFS + ["Sub/CritFact.v", "Sub/MaxSuffixProofs.v", "Sub/TwoWayTier2.v", "Props/C09.v"],
+    id="C09", coq_files=MEM_PROOF_FILES + ["Mem/IterProofs.v"] + ALL_SUB_PROOFS + ["Props/C09.v"],
     gen=gens.gen_c09, oracle=gens.oracle_c09, nontrivial=gens.nontrivial_c09, shrink_fields=["h"],
     builds=["debug", "release", "plain-release+alloconly", "plain-release+nofeatures", "release+avx2", "plain-release+nofeatures+avx2"], cert="rev",
     rule="one case file (samples of the C01/C02/C06/C07 grids on the dispatched top-level functions, the SWAR and SSE2 searchers, and of the C03/C04 "
